@@ -210,7 +210,7 @@ def dtype_merge(repo, res):
 
 @rule(
     "MATH-ARGTYPE",
-    ["C09"],
+    ["C09", "C19"],
     "the C formatter's MathFunction handler, interpreted on sample calls under a complex scalar type: the function name comes "
     "from the real table only when no argument is complex-valued; pow(real base, complex exponent), atan2 with a complex "
     "argument etc. must use the complex entry (a real `pow` would convert the exponent to double and drop its imaginary part)",
@@ -245,6 +245,8 @@ def math_argtype(repo, res):
             res.ob(key)
             it = Interp(repo, load_classes(repo), primary=FM)
             it.overrides["warnings.warn"] = _PyCall(lambda *a, **k: None)
+            it.overrides["np.issubdtype"] = _PyCall(lambda t, k: (k.endswith("complexfloating") if isinstance(k, str) else False) and getattr(t, "f", {}).get("name", "").startswith("complex"))
+            it.overrides["np.complexfloating"] = "np.complexfloating"
             fmt = Node("Formatter", scalar_type=Node("dtype", name=sname), real_type=Node("dtype", name=rname),
                        __call__=_PyCall(lambda a: a.f["name"] if isinstance(a, Node) and "name" in a.f else "x"))
             call = Node("MathFunction", function=fn, args=[S(f"a{i}", d) for i, d in enumerate(dts)], dtype=C if C in dts else R)
@@ -259,6 +261,26 @@ def math_argtype(repo, res):
                 res.fail(key, f"{fn} with argument types {[d.split('.')[1] for d in dts]} in a {sname} kernel is emitted as `{text}`; the "
                          f"{'complex' if want_kind == 'complex' else 'real'} function `{want}` is required"
                          + (": the real function converts the complex argument to its real part" if want_kind == "complex" else ""), m.line(h.node))
+
+    # functions without a complex version: a complex argument must be rejected, not silently reduced to its real part
+    for sname, rname in (("complex128", "float64"), ("complex64", "float32")):
+        for fn in sorted(k_ for k_ in table[rname] if k_ not in table[sname]):
+            key = f"{h.key}:{sname}:{fn}(SCALAR):no-complex-version"
+            res.ob(key)
+            it = Interp(repo, load_classes(repo), primary=FM)
+            it.overrides["warnings.warn"] = _PyCall(lambda *a, **k: None)
+            it.overrides["np.issubdtype"] = _PyCall(lambda t, k: (k.endswith("complexfloating") if isinstance(k, str) else False) and getattr(t, "f", {}).get("name", "").startswith("complex"))
+            it.overrides["np.complexfloating"] = "np.complexfloating"
+            it.overrides["np.iscomplexobj"] = _PyCall(lambda t: getattr(t, "f", {}).get("name", "").startswith("complex"))
+            fmt = Node("Formatter", scalar_type=Node("dtype", name=sname, kind="c"), real_type=Node("dtype", name=rname, kind="f"),
+                       __call__=_PyCall(lambda a: a.f["name"] if isinstance(a, Node) and "name" in a.f else "x"))
+            call = Node("MathFunction", function=fn, args=[S("a0", C)], dtype=C)
+            try:
+                text = it.call_f(h, [fmt, call])
+            except Raised:
+                continue
+            res.fail(key, f"{fn} has no complex version (math_table[{sname}] has no entry) but a complex argument is accepted and emitted as `{text}`: the real "
+                     "function is applied to the real part only - erf(f) with f = 0.3+2j integrates erf(0.3)", m.line(h.node), props=("C09", "C19"))
 
 
 class _Arr(PyNative):
